@@ -2367,6 +2367,11 @@ static int _send_raw(xmpp_conn_t *conn,
         return XMPP_EMEM;
     }
 
+    /* library elements queued before stream management is enabled precede
+     * <enable/> on the wire: they are not part of the acknowledged stream */
+    if (owner == XMPP_QUEUE_STROPHE && !conn->sm_state->sm_enabled)
+        owner = XMPP_QUEUE_SM_STROPHE;
+
     item->data = data;
     item->len = len;
     item->next = NULL;
